@@ -1,7 +1,7 @@
 \* StaticSound, termination of the transport's wrap loops as a temporal property (weak fairness, no state constraint):
 \* every started call returns.  Length 3, rate +-1, chunks of 2, one seek_to / set_loop_region after 2 frames.
-\* Measured: 39 429 distinct states, 9 s.  With Wide = TRUE (loop end <= loop start allowed) the same property is VIOLATED
-\* (the known hang of an empty loop region, DESIGN 9 D6) and so are NoHang and NoPanic - checks/c04.py requires that.
+\* Measured: 39 429 distinct states, 9 s.  With Wide = TRUE and SafeTransport = FALSE (the code before the fixes of D6/D9:
+\* loop end <= loop start allowed and not filtered) the same property is VIOLATED, and so are NoHang and NoPanic.
 \* run: tlc -workers 2 -config StaticSound_live_q.cfg MC_StaticSound.tla
 SPECIFICATION Spec
 CONSTANTS
@@ -18,6 +18,7 @@ CONSTANTS
   Cmds = {"SeekTo", "SetLoop"}
   SeekRevives = TRUE
   SeekByHeard = TRUE
+  SafeTransport = TRUE
   Wide = FALSE
 PROPERTY Terminates
 INVARIANTS PropertyHolds NoHang
